@@ -254,7 +254,7 @@ func newLcRig(sc lcScenario) (*lcRig, error) {
 	if err := r.io.Run(); err != nil {
 		return nil, err
 	}
-	r.gateOn = sc.Phase == "middleware" || sc.Phase == "slowclose" || sc.Kind == "cutbyte"
+	r.gateOn = sc.Phase == "middleware" || sc.Phase == "slowclose" || sc.Phase == "dupconnect" || sc.Kind == "cutbyte"
 	for _, name := range []string{"/", "/b"} {
 		name := name
 		nsp := r.io.Of(name)
@@ -725,6 +725,50 @@ func (r *lcRig) run() (row lcRow) {
 		if sc.Phase == "preconnect" {
 			return nil
 		}
+		if sc.Phase == "dupconnect" {
+			// two CONNECT packets for the same namespace whose processing overlaps: every packet is
+			// handled on its own goroutine, the namespace middleware holds both until both are in
+			if c.ws != nil {
+				if err := c.send("40"); err != nil {
+					return err
+				}
+				if err := c.send("40"); err != nil {
+					return err
+				}
+			} else if err := c.send("40\x1e40"); err != nil {
+				return err
+			}
+			if !r.waitCond(5*time.Second, func() bool {
+				r.mu.Lock()
+				defer r.mu.Unlock()
+				return len(r.socks) >= 2
+			}) {
+				return fmt.Errorf("the two CONNECTs did not both reach the middleware")
+			}
+			r.setReached("middleware")
+			r.release()
+			if err := c.waitPacket("40", 2, 6*time.Second); err != nil {
+				return err
+			}
+			if !r.waitCond(5*time.Second, func() bool {
+				r.mu.Lock()
+				defer r.mu.Unlock()
+				n := 0
+				for _, s := range r.socks {
+					if s.connected {
+						n++
+					}
+				}
+				return n >= 2
+			}) {
+				return fmt.Errorf("connection handlers did not run for both sockets")
+			}
+			r.setReached("idle")
+			kctx, kc := context.WithCancel(c.ctx)
+			keepCancel = kc
+			go c.keepAlive(kctx)
+			return nil
+		}
 		// --- CONNECT to the namespaces
 		for i := 0; i < sc.Nsps; i++ {
 			if err := c.send("40" + nspPrefix(lcNsps[i])); err != nil {
@@ -789,6 +833,12 @@ func (r *lcRig) run() (row lcRow) {
 			c.ws = ws
 			r.setReached("upgraded")
 		}
+		if sc.Phase == "dupseq" {
+			// a second CONNECT for a namespace the connection has already joined: "invalid state"
+			r.fire("invalid")
+			c.send("40")
+			return nil
+		}
 		if sc.Phase == "idle" || sc.Phase == "slowidle" {
 			kctx, kc := context.WithCancel(c.ctx)
 			keepCancel = kc
@@ -838,7 +888,7 @@ func (r *lcRig) run() (row lcRow) {
 	}
 
 	// --- fire the causes, all at once
-	if sc.Kind == "cause" && err == nil && !strings.HasPrefix(sc.Phase, "hsclose") {
+	if sc.Kind == "cause" && err == nil && !strings.HasPrefix(sc.Phase, "hsclose") && sc.Phase != "dupseq" {
 		var wg sync.WaitGroup
 		go1 := make(chan struct{})
 		for _, cause := range sc.Causes {
@@ -898,13 +948,19 @@ func (r *lcRig) run() (row lcRow) {
 	if row.EnvFail == "" && !connLevel {
 		// namespace-only end: wait for its report, then the client ends the connection cleanly
 		r.waitCond(6*time.Second, func() bool {
-			s := r.find("/")
-			if s == nil {
-				return true
-			}
 			r.mu.Lock()
 			defer r.mu.Unlock()
-			return !s.connected || len(s.discM) > 0
+			any := false
+			for _, s := range r.socks {
+				if s.nsp != "/" {
+					continue
+				}
+				any = true
+				if !s.connected || len(s.discM) > 0 {
+					return true
+				}
+			}
+			return !any
 		})
 		keepCancel()
 		time.Sleep(30 * time.Millisecond)
@@ -1147,6 +1203,14 @@ func lcScenarios(tier string, seed uint64, stride int) []lcScenario {
 				add(lcScenario{Kind: "cause", Tr: tr, Phase: ph, Causes: []string{cause}, Nsps: 2, CutAt: -1})
 			}
 		}
+	}
+	// duplicate CONNECT for one namespace on one connection: overlapping (both held in the middleware,
+	// both admitted: two sockets) x every cause; sequential (the second one is an invalid-state packet)
+	for _, tr := range []string{"polling", "websocket"} {
+		for _, cause := range lcCausesAll {
+			add(lcScenario{Kind: "cause", Tr: tr, Phase: "dupconnect", Causes: []string{cause}, Nsps: 1, CutAt: -1})
+		}
+		add(lcScenario{Kind: "cause", Tr: tr, Phase: "dupseq", Causes: []string{"invalid"}, Nsps: 1, CutAt: -1})
 	}
 	// Server.Close while a new connection is being constructed (parked in the Authenticator, or in
 	// the ParserCreator = inside the new-socket callback), then CONNECT on whatever came out
